@@ -242,11 +242,11 @@ func (c *c09bCase) inputLine(ctx sdk.Context, id uint64) string {
 	rates, _ := k.GetAssetRatesParams(ctx, pair.AssetIn)
 	kill, _ := a.EsmKeeper.GetKillSwitchData(ctx, lp.AppID)
 	// interest as this visit computes it
-	intOK := true
+	intOK, intPanic := true, false
 	interest := bp.InterestAccumulated
 	if !bp.IsLiquidated && lfound {
 		cc, _ := ctx.CacheContext()
-		p, _ := safely(func() {
+		p, pm := safely(func() {
 			nb, err := k.CalculateBorrowInterestForLiquidation(cc, id)
 			if err != nil {
 				intOK = false
@@ -263,6 +263,10 @@ func (c *c09bCase) inputLine(ctx sdk.Context, id uint64) string {
 		})
 		if p {
 			intOK = false
+			intPanic = true
+			if envInt("VERIF_DEBUG", 0) == 1 {
+				fmt.Printf("interest panic borrow %d: %s (globalIndex %s reserveIndex %s last %s now %s)\n", id, pm, bp.GlobalIndex, bp.ReserveGlobalIndex, bp.LastInteractionTime, ctx.BlockTime())
+			}
 		}
 	}
 	var first, second uint64
@@ -304,7 +308,11 @@ func (c *c09bCase) inputLine(ctx sdk.Context, id uint64) string {
 		return x.Decimals.String()
 	}
 	var sb strings.Builder
-	fmt.Fprintf(&sb, "b %d 1 %s %s %s %s", id, b2s(bp.IsLiquidated), b2s(lfound), b2s(kill.BreakerEnable), b2s(intOK))
+	intTok := b2s(intOK) // 1 ok, 0 error, 2 panic
+	if intPanic {
+		intTok = "2"
+	}
+	fmt.Fprintf(&sb, "b %d 1 %s %s %s %s", id, b2s(bp.IsLiquidated), b2s(lfound), b2s(kill.BreakerEnable), intTok)
 	fmt.Fprintf(&sb, " %s %s %s", intOr(bp.AmountIn.Amount), intOr(bp.AmountOut.Amount), decOr(interest))
 	fmt.Fprintf(&sb, " %s %s %s %s", c.twa(ctx, pair.AssetIn), decimals(ain), c.twa(ctx, pair.AssetOut), decimals(aout))
 	fmt.Fprintf(&sb, " %s %s %s", decOr(rates.LiquidationThreshold), decOr(rates.ELiquidationThreshold), b2s(pair.IsEModeEnabled))
@@ -988,6 +996,7 @@ func TestC09Borrow(t *testing.T) {
 		func(ci int) { c09bBridgeCase(w, tr, ci, 1) },
 		func(ci int) { c09bBridgeCase(w, tr, ci, 2) },
 		func(ci int) { c09bPoolShort(w, tr, ci) },
+		func(ci int) { c09bReserveIndexZero(w, tr, ci) },
 		func(ci int) { c09bGovBatch(w, tr, ci, 1<<63) },
 		func(ci int) { c09bGovBatch(w, tr, ci, ^uint64(0)) },
 		func(ci int) { c09bGovBatch(w, tr, ci, 1<<63-1) },
@@ -1073,4 +1082,28 @@ func c09bPoolShort(w *c09bWorld, tr *tracer, ci int) {
 			return
 		}
 	}
+}
+
+// directed (finding C09-F6): a borrow opened while lend.GetReserveRate is exactly 0.  The first borrow of A1 from
+// pool 2 is a STABLE borrow (collateral A4 admits stable borrowing; the stable rate parameters of A1 are 0, so the
+// pool's average borrow rate of A1 is 0); the second borrow of A1 is stored with ReserveGlobalIndex 0, and every
+// later interest update of it (liquidation visit, liquidate message, repay, close) divides by zero.  The A4 price
+// falls: the second borrow is far above its threshold and can never be seized.
+func c09bReserveIndexZero(w *c09bWorld, tr *tracer, ci int) {
+	c := c09bNewCase(w, tr, ci, "reserve-index-zero", 2)
+	if c.newBorrow(5, 100000000, 900, true) == 0 { // A4 -> A1, pool 2, stable
+		return
+	}
+	id := c.newBorrow(5, 100000000, 900, false) // A4 -> A1, pool 2, variable
+	if id == 0 {
+		return
+	}
+	c.setPrice(w.assets[3], w.normal[w.assets[3]]/2, true)
+	for i := 0; i < 5; i++ {
+		if !c.block() {
+			return
+		}
+	}
+	c.liqMsg(1, id)
+	c.closeBorrow(id)
 }
